@@ -6,6 +6,10 @@ use crate::runner::{Ctx, Fail, Violation};
 use serde_json::Value;
 
 pub fn judge_value(ctx: &Ctx, case: &Value) -> Result<(), Fail> {
+    // a case found in a process-history shard: re-judge it in a fresh, equally primed process
+    if let Some(sh) = case.get("shard") {
+        return props::outputs::replay_shard(ctx, sh);
+    }
     // tree cases
     if let Some(sc) = case.get("script_case") {
         let sc: props::tree::ScriptCase = serde_json::from_value(sc.clone()).map_err(|e| Fail::new("harness:replay", e.to_string()))?;
